@@ -43,6 +43,97 @@ pub open spec fn brow<A, B>(m: Map<A, Vec<B>>, x: A) -> Seq<B> {
 }
 '''
 
+SPEC_PUSHED = r'''
+// ------------------------------------------------------------------ row views of the three index shapes
+pub open spec fn rm_row<A, B>(m: RelationMap<A, B>, x: int) -> Seq<B> { row_or_empty(m.data@, x) }
+pub open spec fn bt_row<A: Handle, B: Handle>(m: RelationBTreeMap<A, B>, x: A) -> Seq<B> { brow(m.data@, x) }
+
+// ------------------------------------------------------------------ "these entries were appended, in order"
+/// the values entered under key x, in order
+pub open spec fn proj2<A: Handle, B>(e: Seq<(A, B)>, x: int) -> Seq<B>
+    decreases e.len()
+{
+    if e.len() == 0 { Seq::empty() }
+    else if e.last().0.idx() == x { proj2(e.drop_last(), x).push(e.last().1) }
+    else { proj2(e.drop_last(), x) }
+}
+pub open spec fn projk<A, B>(e: Seq<(A, B)>, x: A) -> Seq<B>
+    decreases e.len()
+{
+    if e.len() == 0 { Seq::empty() }
+    else if e.last().0 == x { projk(e.drop_last(), x).push(e.last().1) }
+    else { projk(e.drop_last(), x) }
+}
+pub open spec fn proj3<A: Handle, B: Handle, C>(e: Seq<(A, B, C)>, x: int, y: int) -> Seq<C>
+    decreases e.len()
+{
+    if e.len() == 0 { Seq::empty() }
+    else if e.last().0.idx() == x && e.last().1.idx() == y { proj3(e.drop_last(), x, y).push(e.last().2) }
+    else { proj3(e.drop_last(), x, y) }
+}
+
+/// every row of the index is its old content followed by the entries for that row, in order; all other rows unchanged
+pub open spec fn rm_pushed<A: Handle, B>(old: RelationMap<A, B>, new: RelationMap<A, B>, e: Seq<(A, B)>) -> bool {
+    forall|x: int| #[trigger] rm_row(new, x) == rm_row(old, x) + proj2(e, x)
+}
+pub open spec fn bt_pushed<A: Handle, B: Handle>(old: RelationBTreeMap<A, B>, new: RelationBTreeMap<A, B>, e: Seq<(A, B)>) -> bool {
+    forall|x: A| #[trigger] bt_row(new, x) == bt_row(old, x) + projk(e, x)
+}
+pub open spec fn tr_pushed<A: Handle, B: Handle, C>(old: TripleRelationMap<A, B, C>, new: TripleRelationMap<A, B, C>, e: Seq<(A, B, C)>) -> bool {
+    forall|x: int, y: int| #[trigger] new.cell(x, y) == old.cell(x, y) + proj3(e, x, y)
+}
+
+pub proof fn lemma_proj2_step<A: Handle, B>(e: Seq<(A, B)>, i: int, x: int)
+    requires 0 <= i < e.len(),
+    ensures proj2(e.take(i + 1), x) == (if e[i].0.idx() == x { proj2(e.take(i), x).push(e[i].1) } else { proj2(e.take(i), x) }),
+{
+    assert(e.take(i + 1).drop_last() =~= e.take(i));
+    assert(e.take(i + 1).last() == e[i]);
+}
+pub proof fn lemma_projk_step<A, B>(e: Seq<(A, B)>, i: int, x: A)
+    requires 0 <= i < e.len(),
+    ensures projk(e.take(i + 1), x) == (if e[i].0 == x { projk(e.take(i), x).push(e[i].1) } else { projk(e.take(i), x) }),
+{
+    assert(e.take(i + 1).drop_last() =~= e.take(i));
+    assert(e.take(i + 1).last() == e[i]);
+}
+pub proof fn lemma_proj3_step<A: Handle, B: Handle, C>(e: Seq<(A, B, C)>, i: int, x: int, y: int)
+    requires 0 <= i < e.len(),
+    ensures proj3(e.take(i + 1), x, y) == (if e[i].0.idx() == x && e[i].1.idx() == y { proj3(e.take(i), x, y).push(e[i].2) } else { proj3(e.take(i), x, y) }),
+{
+    assert(e.take(i + 1).drop_last() =~= e.take(i));
+    assert(e.take(i + 1).last() == e[i]);
+}
+
+pub proof fn lemma_proj2_one<A: Handle, B>(x: A, y: B, k: int)
+    ensures proj2(seq![(x, y)], k) == (if x.idx() == k { seq![y] } else { Seq::<B>::empty() }),
+{
+    let e = seq![(x, y)];
+    assert(e.drop_last() =~= Seq::<(A, B)>::empty());
+    assert(e.last() == (x, y));
+    reveal_with_fuel(proj2, 2);
+    assert(Seq::<B>::empty().push(y) =~= seq![y]);
+}
+pub proof fn lemma_projk_one<A, B>(x: A, y: B, k: A)
+    ensures projk(seq![(x, y)], k) == (if x == k { seq![y] } else { Seq::<B>::empty() }),
+{
+    let e = seq![(x, y)];
+    assert(e.drop_last() =~= Seq::<(A, B)>::empty());
+    assert(e.last() == (x, y));
+    reveal_with_fuel(projk, 2);
+    assert(Seq::<B>::empty().push(y) =~= seq![y]);
+}
+pub proof fn lemma_proj3_one<A: Handle, B: Handle, C>(x: A, y: B, z: C, k: int, l: int)
+    ensures proj3(seq![(x, y, z)], k, l) == (if x.idx() == k && y.idx() == l { seq![z] } else { Seq::<C>::empty() }),
+{
+    let e = seq![(x, y, z)];
+    assert(e.drop_last() =~= Seq::<(A, B, C)>::empty());
+    assert(e.last() == (x, y, z));
+    reveal_with_fuel(proj3, 2);
+    assert(Seq::<C>::empty().push(z) =~= seq![z]);
+}
+'''
+
 VX_POSITION = r'''
 /// R-outline: stands for `E.iter().position(|z| *z == y)`; the body is that expression.
 /// Trusted: `position` returns the first index whose element equals y (std semantics) and
@@ -59,10 +150,32 @@ pub fn vx_position<B: PartialEq>(values: &Vec<B>, y: B) -> (r: Option<usize>)
 }
 '''
 
+RM_PUSHED_HINT = '''proof {
+            assert forall|k: int| #[trigger] rm_row(*self, k) == rm_row(*old(self), k) + proj2(seq![(x, y)], k) by {
+                lemma_proj2_one(x, y, k);
+                if k == x.idx() { assert(rm_row(*old(self), k) + seq![y] =~= rm_row(*old(self), k).push(y)); }
+                else { assert(rm_row(*old(self), k) + Seq::<B>::empty() =~= rm_row(*old(self), k)); if 0 <= k < self@.len() { assert(self@[k] == row_or_empty(old(self).data@, k)); } }
+            }
+        }'''
+BT_PUSHED_HINT = '''proof {
+            assert forall|k: A| #[trigger] bt_row(*self, k) == bt_row(*old(self), k) + projk(seq![(x, y)], k) by {
+                lemma_projk_one(x, y, k);
+                if k == x { assert(bt_row(*old(self), k) + seq![y] =~= bt_row(*old(self), k).push(y)); }
+                else { assert(bt_row(*old(self), k) + Seq::<B>::empty() =~= bt_row(*old(self), k)); if old(self).data@.contains_key(k) { assert(self.data@[k] == old(self).data@[k]); } }
+            }
+        }'''
+TR_PUSHED_HINT = '''proof {
+            assert forall|k: int, l: int| #[trigger] self.cell(k, l) == old(self).cell(k, l) + proj3(seq![(x, y, z)], k, l) by {
+                lemma_proj3_one(x, y, z, k, l);
+                if k == x.idx() && l == y.idx() { assert(old(self).cell(k, l) + seq![z] =~= old(self).cell(k, l).push(z)); }
+                else { assert(old(self).cell(k, l) + Seq::<C>::empty() =~= old(self).cell(k, l)); }
+            }
+        }'''
+
 POSITION_RW = ('R-outline', r'values\.iter\(\)\.position\(\|z\| \*z == y\)', 'vx_position(values, y)')
 
 
-def emit_relationmap(u, P, with_canary=True):
+def emit_relationmap(u, P, with_canary=True, pushed=False):
     """struct RelationMap + insert/remove/remove_all/get/len under contract (needs vx_position, Handle, std specs)"""
     # ------------------------------------------------------------------ RelationMap
     u.item('src/store.rs', 'struct', 'RelationMap', rewrites=[('R-vis', r'\b_marker:', 'pub _marker:')])
@@ -85,11 +198,12 @@ pub proof fn canary_u_map(y: int)
                ('len', 'final(self)@.len() == (if x.idx() >= old(self)@.len() { x.idx() + 1 } else { old(self)@.len() as int })'),
                ('row', 'final(self)@[x.idx() as int] == row_or_empty(old(self).data@, x.idx() as int).push(y)'),
                ('frame', 'forall|k: int| 0 <= k < final(self)@.len() && k != x.idx() ==> #[trigger] final(self)@[k] == row_or_empty(old(self).data@, k)'),
-           ],
+           ] + ([('pushed', 'rm_pushed(*old(self), *final(self), seq![(x, y)])')] if pushed else []),
            prologue='proof { A::hmax_bound(); }',
            before=[('self.data[x.as_usize()].push(y);', 'let ghost mid = self.data@;')],
            after=[('self.data[x.as_usize()].push(y);',
-                   'proof { assert forall|k: int| 0 <= k < self@.len() && k != x.idx() implies #[trigger] self@[k] == row_or_empty(old(self).data@, k) by { assert(self.data@[k] == mid[k]); } }')]),
+                   'proof { assert forall|k: int| 0 <= k < self@.len() && k != x.idx() implies #[trigger] self@[k] == row_or_empty(old(self).data@, k) by { assert(self.data@[k] == mid[k]); } }')]
+                 + ([('self.data[x.as_usize()].push(y);', RM_PUSHED_HINT, None, 'pushed')] if pushed else [])),
         Fn('remove', props=P, rewrites=[POSITION_RW],
            ensures=[
                ('len', 'final(self)@.len() == old(self)@.len()'),
@@ -112,7 +226,7 @@ pub proof fn canary_u_map(y: int)
 
 
 
-def emit_other_maps(u, P):
+def emit_other_maps(u, P, pushed=False):
     """RelationBTreeMap, TripleRelationMap, ExclusiveRelationMap under contract"""
     # ------------------------------------------------------------------ RelationBTreeMap
     CMP = ('cmp_laws', 'vstd::laws_cmp::obeys_cmp::<A>()')
@@ -128,7 +242,8 @@ def emit_other_maps(u, P):
                ('row', 'final(self).data@.contains_key(x) && final(self).data@[x]@ == brow(old(self).data@, x).push(y)'),
                ('frame_dom', 'forall|k: A| k != x ==> (final(self).data@.contains_key(k) <==> old(self).data@.contains_key(k))'),
                ('frame', 'forall|k: A| k != x && old(self).data@.contains_key(k) ==> #[trigger] final(self).data@[k] == old(self).data@[k]'),
-           ]),
+           ] + ([('pushed', 'bt_pushed(*old(self), *final(self), seq![(x, y)])')] if pushed else []),
+           after=([(r're:self\.data\.insert\(x, vec!\[y\]\);\s*\}', BT_PUSHED_HINT, None, 'pushed')] if pushed else [])),
         Fn('remove', props=P, requires=[CMP], rewrites=[POSITION_RW],
            ensures=[
                ('dom', 'final(self).data@.dom() == old(self).data@.dom()'),
@@ -174,13 +289,13 @@ def emit_other_maps(u, P):
         Fn('insert', props=P,
            prologue='proof { A::hmax_bound(); }',
            before=[('self.data[x.as_usize()].insert(y, z);', 'let ghost mid = self.data@;')],
-           after=[('self.data[x.as_usize()].insert(y, z);', T_INSERT_HINT)],
+           after=[('self.data[x.as_usize()].insert(y, z);', T_INSERT_HINT)] + ([('self.data[x.as_usize()].insert(y, z);', TR_PUSHED_HINT, None, 'pushed')] if pushed else []),
            ensures=[
                ('len', 'final(self).data@.len() == (if x.idx() >= old(self).data@.len() { x.idx() + 1 } else { old(self).data@.len() as int })'),
                ('cell', 'final(self).cell(x.idx() as int, y.idx() as int) == old(self).cell(x.idx() as int, y.idx() as int).push(z)'),
                ('frame_cells', 'forall|i: int, j: int| (i != x.idx() || j != y.idx()) ==> #[trigger] final(self).cell(i, j) == old(self).cell(i, j)'),
                ('frame_rows', T_FRAME_ROWS),
-           ]),
+           ] + ([('pushed', 'tr_pushed(*old(self), *final(self), seq![(x, y, z)])')] if pushed else [])),
         Fn('get', props=P, ret='r',
            ensures=[
                ('some_iff', 'r.is_some() <==> (x.idx() < self.data@.len() && y.idx() < self.data@[x.idx() as int].data@.len())'),
@@ -212,6 +327,8 @@ def emit_other_maps(u, P):
         Fn('len', props=P, ret='r', ensures=[('len', 'r == self.data@.len()')]),
     ])
 
+    if pushed:
+        u.spec(SPEC_PUSHED, 'contracts/u_map.py:SPEC_PUSHED')
     # ------------------------------------------------------------------ ExclusiveRelationMap
     u.item('src/store.rs', 'struct', 'ExclusiveRelationMap', rewrites=[('R-vis', r'\bdata:', 'pub data:')])
     u.impl('src/store.rs', 'impl<A, B> ExclusiveRelationMap<A, B>', [
@@ -234,6 +351,6 @@ def build():
     common.handle_trait(u, P)
     u.trusted_text(VX_POSITION, 'external_body vx_position: std Iterator::position semantics + structural == on handles (R-outline)')
 
-    emit_relationmap(u, P)
-    emit_other_maps(u, P)
+    emit_relationmap(u, P, pushed=True)
+    emit_other_maps(u, P, pushed=True)
     return u
